@@ -491,6 +491,13 @@ def elsePart (kwElse : Option Str) (elseL : List ScriptInstr) : List ScriptInstr
   | some k => mkInstr none k [] :: elseL
   | none => []
 
+theorem ifChain_flatten (kwIf : Str) (cond : List Str) (body : Block) (elifs : Elifs)
+    (kwElse : Option Str) (elseBody : Block) (kwEnd : Str) :
+    (Stmt.ifChain kwIf cond body elifs kwElse elseBody kwEnd).flatten =
+      mkInstr none kwIf cond ::
+        ((body.flatten ++ elifs.flatten ++ elsePart kwElse elseBody.flatten) ++ [mkInstr none kwEnd []]) := by
+  cases kwElse <;> simp [Stmt.flatten, elsePart]
+
 theorem scan_ifInner {K : Kind} {is : List Instruction} (bodyL elifsL : List ScriptInstr)
     (kwElse : Option Str) (elseL : List ScriptInstr) (fe : Nat → List Nat)
     (hElse : ∀ k, kwElse = some k → isElseKw k = true)
